@@ -4,11 +4,14 @@ import (
 	"encoding/hex"
 	"fmt"
 	"strings"
+	"time"
 
 	"github.com/spikeekips/mitum/base"
 	"github.com/spikeekips/mitum/isaac"
+	isaacblock "github.com/spikeekips/mitum/isaac/block"
 	leveldbstorage "github.com/spikeekips/mitum/storage/leveldb"
 	"github.com/spikeekips/mitum/util"
+	"github.com/spikeekips/mitum/util/valuehash"
 )
 
 func init() { register("C20", runC20) }
@@ -48,6 +51,37 @@ func (d *c19db) byteReads(keys []string, maxHeight, maxSuf int) map[string]strin
 	return out
 }
 
+// a block writer of `h` with contents of its own, written and left alone
+func c20abandoned(d *c19db, h int) error {
+	height := base.Height(int64(h))
+	manifest := isaac.NewManifest(height, valuehash.RandomSHA256(), valuehash.RandomSHA256(), valuehash.RandomSHA256(), valuehash.RandomSHA256(), valuehash.RandomSHA256(), time.Now())
+	m := isaacblock.NewBlockMap()
+	m.SetManifest(manifest)
+	for _, t := range []base.BlockItemType{base.BlockItemProposal, base.BlockItemOperations, base.BlockItemOperationsTree, base.BlockItemStates, base.BlockItemStatesTree, base.BlockItemVoteproofs} {
+		if err := m.SetItem(isaacblock.NewBlockMapItem(t, util.UUID().String())); err != nil {
+			return err
+		}
+	}
+	if err := m.Sign(d.env.node.Address(), d.env.node.Privatekey(), hNetworkID); err != nil {
+		return err
+	}
+	st := base.NewBaseState(height, "ka", base.NewDummyStateValue("abandoned"), valuehash.RandomSHA256(), []util.Hash{valuehash.RandomSHA256()})
+	w, err := d.center.NewBlockWriteDatabase(height)
+	if err != nil {
+		return err
+	}
+	if err := w.SetBlockMap(m); err != nil {
+		return err
+	}
+	if err := w.SetStates([]base.State{st}); err != nil {
+		return err
+	}
+	if err := w.SetOperations([]util.Hash{valuehash.RandomSHA256()}); err != nil {
+		return err
+	}
+	return w.Write()
+}
+
 func runC20(c *Ctx) error {
 	env, err := c19newEnv()
 	if err != nil {
@@ -65,7 +99,8 @@ func runC20(c *Ctx) error {
 		if err := d.open(); err != nil {
 			return err
 		}
-		var toks []string
+		var toks, tops []string // tops: the same history as operations of the temps model (Model/ReopenTemps.lean)
+		intemps := 0            // blocks held in temps by the running Center
 		next, sufH, vcount, ocount, pcount := 0, -1, 0, 0, 0
 		opIDs := []string{"oX"}
 		nsteps := 3 + c.Intn(10)
@@ -98,13 +133,43 @@ func runC20(c *Ctx) error {
 					return fmt.Errorf("write block %d: %w", next, err)
 				}
 				tok = b.tok()
+				tops = append(tops, "c")
+				intemps++
 				next++
-			default:
+			case k == 7:
 				if err := d.center.MergeAllPermanent(); err != nil {
 					return err
 				}
 				tok = "MERGE"
+				for ; intemps > 0; intemps-- {
+					tops = append(tops, "m")
+				}
+			case k == 8:
+				// a second block writer for the newest height (the next round's proposal was processed too) that is
+				// written but never merged: it stays on disk beside the merged one
+				if err := c20abandoned(d, next-1); err != nil {
+					return err
+				}
+				tok = fmt.Sprintf("ABANDONED:%d", next-1)
+				tops = append(tops, fmt.Sprintf("a%d", next-1))
+			default:
+				h := next - 1 - c.Intn(3)
+				if h < 0 {
+					h = 0
+				}
+				removed, err := d.center.RemoveBlocks(base.Height(int64(h)))
+				if err != nil {
+					return err
+				}
+				tok = fmt.Sprintf("REMOVE:%d:%s", h, b01(removed))
+				tops = append(tops, fmt.Sprintf("r%d", h))
+				if removed {
+					intemps -= next - h
+					next = h
+					sufH = c19lastSuf(toks, h)
+				}
 			}
+			c.Count("step", strings.SplitN(tok, ":", 2)[0])
 			toks = append(toks, tok)
 			// quiescent point: every read, then the same reads from databases opened anew on the same storage
 			before := d.reads(keys, next, sufH, opIDs)
@@ -114,10 +179,22 @@ func runC20(c *Ctx) error {
 			}
 			after := d.reads(keys, next, sufH, opIDs)
 			bafter := d.byteReads(keys, next, sufH)
+			// the temps model: the number of blocks before and after opening anew
+			{
+				last := func() int {
+					m, found, err := d.center.LastBlockMap()
+					if err != nil || !found {
+						return 0
+					}
+					return int(m.Manifest().Height()) + 1
+				}
+				c.Case("temps "+strings.Join(tops, " "), fmt.Sprintf("before=%d after=%d", next, last()))
+			}
 			c.Eval(1 + len(bbefore))
 			in := map[string]interface{}{"history": append([]string{}, toks...)}
 			if before != after {
 				c.Violation("C20:objects-differ-after-reopen", fmt.Sprintf("history %s: reads before %q, after reopening %q", strings.Join(toks, " "), before, after), in)
+				break // the reopened databases no longer hold what the history says: nothing further to learn from it
 			}
 			for name, b := range bbefore {
 				a := bafter[name]
